@@ -67,6 +67,9 @@ func c04Scripts(tier string) []uciParams {
 		{"go depth 1", "await", "go infinite", "!stop", "await"},
 		{"go depth 1 movetime 5", "await", "go infinite", "!stop", "await"}, // the movetime timer of an answered go outlives it
 		{"go wtime 1000 winc 10 btime 1000 binc 10 movestogo 10", "await"},  // parameters the driver does not handle sit between those it does (@kvk)
+		{"go infinite movetime 5", "!stop", "await"},                        // contradictory orders: whatever the timer does, the stop must be answered (@kvk)
+		{"go infinite depth 1", "!stop", "await"},                           // the analysis ends by itself at depth 1; "infinite" means the answer waits for the stop (@kvk)
+		{"go wtime 1000 btime 1000 movestogo 9223372036854775807", "await"}, // counters at the edge of their type (@kvk)
 		{"go nodes 50 mate 2", "!stop", "await"},                            // only unhandled limits: runs until stopped (@kvk)
 		{"go depth 2", "!stop", "await", "@other", "go depth 1", "await"},   // a stop racing with the natural end of the search, then another position: whatever is left of the first search must not answer the second
 		{"go depth 1", "!stop", "await", "@other", "go infinite", "stop", "await"},
@@ -81,7 +84,7 @@ func c04Scripts(tier string) []uciParams {
 				if e.name != "plain" && st.name == "fortress-moves" && tier != "thorough" {
 					continue
 				}
-				if gl := strings.Join(g, " "); (strings.Contains(gl, "@other") || strings.Contains(gl, "winc") || strings.Contains(gl, "nodes")) && st.name != "kvk" && st.name != "kvk-black" && tier != "thorough" {
+				if gl := strings.Join(g, " "); (strings.Contains(gl, "@other") || strings.Contains(gl, "winc") || strings.Contains(gl, "nodes") || strings.Contains(gl, "infinite movetime") || strings.Contains(gl, "infinite depth") || strings.Contains(gl, "9223372036854775807")) && st.name != "kvk" && st.name != "kvk-black" && tier != "thorough" {
 					continue // quick: the two-position scripts on the K v K set-ups only
 				}
 				if (st.name == "insufficient-after-capture" || st.name == "fivefold") && tier != "thorough" && e.name != "plain" && ei != 1 {
@@ -139,7 +142,7 @@ func c04Scripts(tier string) []uciParams {
 func init() {
 	Defs["C04"] = &Def{
 		ID:   "C04",
-		Rule: "engine (plain alpha-beta + the four bundled engines, constructed by code LIFTED from cmd/*/main.go at check time) x options (Hash 0/1, Noise, OwnBook on/off, flags) x set-up (K v K both colours, checkmated, stalemated, claimable three-fold via moves, five-fold via moves, bare kings after a capture played in the moves list, half-move clock 100, fortress with and without moves, start position with book; a generic book with en passant lines on positions inside, transposed into and past its lines) x go variant (depth 1/2, bare, movetime, wtime/btime(+movestogo), infinite->stop, depth->stop, go;await;go, go;await;go infinite;stop, go;stop;await;other position;go;await). The GUI awaits each bestmove; `stop` is released (a) as a lazy thread at ANY scheduling point for one deviation, timers likewise, and (b) at scheduler step k for a grid of k over the whole unstopped run, timers likewise, each engine goroutine in turn held back for 80 steps after the stop (slow-thread dimension); all schedules within the deviation bound. Oracle per execution: every go answered by exactly one bestmove (a GUI parked forever on await = missing answer), the move is reference-legal in the position last set up, 0000 iff that position has no legal move. Conformance of the lifted engines with the shipped ones: the REAL binaries (built from the tree under test; real logger, real stdin/stdout plumbing) and the lifted engines run the same 14 UCI sessions x 5 engine configurations (noise off), incl. end of input, unknown lines, other white space, options, an overstepped clock, an under-promotion in the moves list: everything printed except info lines must be identical line for line (book sessions: answered and ended), one bestmove per go, exit status 0 on quit and on end of input. distinct_nontrivial = distinct event-log classes",
+		Rule: "engine (plain alpha-beta + the four bundled engines, constructed by code LIFTED from cmd/*/main.go at check time) x options (Hash 0/1, Noise, OwnBook on/off, flags) x set-up (K v K both colours, checkmated, stalemated, claimable three-fold via moves, five-fold via moves, bare kings after a capture played in the moves list, half-move clock 100, fortress with and without moves, start position with book; a generic book with en passant lines on positions inside, transposed into and past its lines) x go variant (depth 1/2, bare, movetime, wtime/btime(+movestogo, also movestogo at the edge of its integer type), infinite->stop, infinite with a movetime or a depth limit ->stop, depth->stop, go;await;go, go;await;go infinite;stop, go;stop;await;other position;go;await). The GUI awaits each bestmove; `stop` is released (a) as a lazy thread at ANY scheduling point for one deviation, timers likewise, and (b) at scheduler step k for a grid of k over the whole unstopped run, timers likewise, each engine goroutine in turn held back for 80 steps after the stop (slow-thread dimension); all schedules within the deviation bound. Oracle per execution: every go answered by exactly one bestmove (a GUI parked forever on await = missing answer), the move is reference-legal in the position last set up, 0000 iff that position has no legal move. Conformance of the lifted engines with the shipped ones: the REAL binaries (built from the tree under test; real logger, real stdin/stdout plumbing) and the lifted engines run the same 14 UCI sessions x 5 engine configurations (noise off), incl. end of input, unknown lines, other white space, options, an overstepped clock, an under-promotion in the moves list: everything printed except info lines must be identical line for line (book sessions: answered and ended), one bestmove per go, exit status 0 on quit and on end of input. distinct_nontrivial = distinct event-log classes",
 		Gen: func(tier string) []explore.Scenario {
 			var out []explore.Scenario
 			for _, p := range c04Scripts(tier) {
